@@ -85,18 +85,19 @@ Definition is_artifact (T : table) (tl : list (id * nat)) (i : id) : bool :=
   existsb (fun e => String.eqb (fst e) i &&
                     match nth_error T (snd e) with Some t => t_artifact t | None => false end) tl.
 
-Fixpoint port_index (ps : list port) (f : string) : option nat :=
-  match ps with
-  | [] => None
-  | p :: r => if String.eqb (p_name p) f then Some O
-              else match port_index r f with Some k => Some (S k) | None => None end
-  end.
+Definition find_port (ps : list port) (f : string) : option port :=
+  find (fun p => String.eqb (p_name p) f) ps.
 
-Fixpoint upd {A} (k : nat) (f : A -> A) (l : list A) : list A :=
-  match l, k with
-  | [], _ => []
-  | x :: r, O => f x :: r
-  | x :: r, S k' => x :: upd k' f r
+(* the input lists are kept aligned with the port table; an update addresses the port by its field name *)
+Fixpoint zip_upd (ps : list port) (ins : list (list id)) (f : string) (g : list id -> list id) : list (list id) :=
+  match ps, ins with
+  | p :: ps', l :: ins' => (if String.eqb (p_name p) f then g l else l) :: zip_upd ps' ins' f g
+  | _, _ => []
+  end.
+Fixpoint port_val (ps : list port) (ins : list (list id)) (f : string) : option (list id) :=
+  match ps, ins with
+  | p :: ps', l :: ins' => if String.eqb (p_name p) f then Some l else port_val ps' ins' f
+  | _, _ => None
   end.
 
 Fixpoint remove_nth {A} (k : nat) (l : list A) : list A :=
@@ -106,16 +107,24 @@ Fixpoint remove_nth {A} (k : nat) (l : list A) : list A :=
   | x :: r, S k' => x :: remove_nth k' r
   end.
 
+(* which field a SetInput name addresses, and whether it is the dotted (array) form: the FIRST dot decides *)
+Definition field_of (name : string) : string := match lsplit name with Some (f, _) => f | None => name end.
+Definition dotted (name : string) : bool := match lsplit name with Some _ => true | None => false end.
+
+(* reflect accepts the assignment: the field exists, has the addressed shape, and the source's value type fits *)
+Definition accepts (T : table) (tl : list (id * nat)) (ps : list port) (name : string) (src : id) : bool :=
+  match find_port ps (field_of name) with
+  | Some p => Bool.eqb (p_array p) (dotted name) && has_src T tl src (p_vt p)
+  | None => false
+  end.
+
 (* nodes.Struct.SetInput(name, output) with a non-nil output: a dotted name appends to the slice field named
    before the FIRST dot (the index after it is ignored), an undotted name assigns the interface field.
    reflect panics (= rejected) when the field is missing, of the other shape, or of another value type. *)
 Definition set_input (T : table) (tl : list (id * nat)) (ps : list port) (ins : list (list id))
            (name : string) (src : id) : option (list (list id)) :=
-  let '(field, arr) := match lsplit name with Some (f, _) => (f, true) | None => (name, false) end in
-  do k <- port_index ps field;
-  do p <- nth_error ps k;
-  if Bool.eqb (p_array p) arr && has_src T tl src (p_vt p)
-  then Some (upd k (fun l => if arr then l ++ [src] else [src]) ins)
+  if accepts T tl ps name src
+  then Some (zip_upd ps ins (field_of name) (fun l => if dotted name then l ++ [src] else [src]))
   else None.
 
 (* SetInput(name, nil): "F.k" removes element k of the slice (strconv.Atoi, then reflect slicing: k < len),
@@ -124,14 +133,13 @@ Definition clear_input (ps : list port) (ins : list (list id)) (name : string) :
   match lsplit name with
   | Some (f, rest) =>
       do idx <- atoi rest;
-      do k <- port_index ps f;
-      do p <- nth_error ps k;
-      do l <- nth_error ins k;
+      do p <- find_port ps f;
+      do l <- port_val ps ins f;
       if p_array p && (idx <? N.of_nat (length l))
-      then Some (upd k (remove_nth (N.to_nat idx)) ins) else None
+      then Some (zip_upd ps ins f (remove_nth (N.to_nat idx))) else None
   | None =>
-      do k <- port_index ps name;
-      Some (upd k (fun _ => []) ins)
+      do p <- find_port ps name;
+      Some (zip_upd ps ins name (fun _ => []))
   end.
 
 Definition ports_of (T : table) (k : nat) : list port :=
@@ -401,15 +409,6 @@ Definition decode (T : table) (sc : schema) : option inst :=
   else None.
 
 (* ---------- well-formedness (the invariant of reachable states) and the over-read condition ---------- *)
-Definition par_okb (k : pkind) (r0 r : prec) : bool :=
-  match k with
-  | PNone => false
-  | PValue => match pr_def r, pr_val r with Some _, Some _ => true | _, _ => false end
-  | _ => opt_eqb jval_eqb (pr_def r) (pr_def r0)
-         && match pr_val r with Some (JBytes _) => true | Some _ => false
-                                | None => match pr_val r0 with None => true | Some _ => false end end
-  end.
-
 (* payload a node appends to the buffer *)
 Definition payload (T : table) (n : node) : list N :=
   match n_par n with
